@@ -31,7 +31,7 @@ def main(tier, replay=None):
     proofs_ok = c.proofs(gen_only=["Consts.v"])
     c.log("proofs:", "ok" if proofs_ok else c.proof_break)
     counters = PC.new_counters()
-    n = 260 if tier == "quick" else 4000
+    n = 320 if tier == "quick" else 2200
     stats_all = []
     nbad = 0
     nhist = 0
@@ -70,7 +70,8 @@ def main(tier, replay=None):
         "distinct_nontrivial": len(counters["distinct"]),
         "rule": "one evaluation = one generated history (1-2 wallets, 10-40 steps: blocks mining pending transactions / held-back conflicts / random "
                 "transactions, reorganisations of depth 1-4 re-mining or dropping transactions, unconfirmed transactions spending wallet coins, incoming payments, "
-                "children of pending transactions, orphans delivered before their parent, duplicates, restarts of the wallet process, new addresses, queries). "
+                "children of pending transactions, orphans delivered before their parent, duplicates, conflicting pairs delivered together, transactions delivered after "
+                "they were mined, coinbase deposits, restarts of the wallet process, new addresses, queries). "
                 "distinct_nontrivial = distinct non-empty observations (reports with coins, flag lists with a flag set, deposit histories with rows, pending sets "
                 "with members). " + " | ".join(stats_all),
         "observation_lines_compared": counters["lines"], "by_kind": counters["kinds"],
@@ -82,8 +83,9 @@ def main(tier, replay=None):
     })
     c.assumptions = ["node mempool empty", "consensus-valid chains only",
                      "CoinbaseMaturity lowered to 4, MinFrozenPeriod to 2 and scrypt N to 16 by the harness (package variables)",
-                     "unconfirmed transactions are delivered when the wallet has processed the node's tip (proccessReceivedTx admits a lag of one block: see finding flag-lost:shared-input-key)",
-                     "default generator avoids the shapes of the reported findings (PROBES in checks/_pending_common.py); they are generated when listed in KNOWN_FINDINGS.txt or with VERIF_PROBE=1",
+                     "unconfirmed transactions are delivered while the wallet is at most one block behind the node (the guard of proccessReceivedTx)",
+                     "without -probes foreign no transaction that concerns a wallet depends on a recent non-wallet output (recorded finding stale-pending:foreign-input; "
+                     "the shape is generated when the finding is listed in KNOWN_FINDINGS.txt or with VERIF_PROBE=1)",
                      "binding history rows are compared in quiescent states only (GetBindingHistoryDetail reads the transaction by block height from the node)"]
     if not proofs_ok and not c.violations and not brk:
         brk = "proof obligations of Properties/C09.v no longer check: " + str(c.proof_break)
